@@ -31,6 +31,7 @@ from .errors import (
     JSError,
     JSTypeError,
     JSReferenceError,
+    JSRangeError,
     MemoryLimitError,
     TimeLimitError,
 )
@@ -228,6 +229,9 @@ class VM:
             except JSReferenceError as e:
                 # Convert Python JSReferenceError to JavaScript ReferenceError
                 self._handle_python_exception("ReferenceError", str(e))
+            except JSRangeError as e:
+                # Convert Python JSRangeError to JavaScript RangeError
+                self._handle_python_exception("RangeError", str(e))
 
             # Check if frame was popped (return)
             if not self.call_stack:
